@@ -269,3 +269,65 @@ Example c03_srv_nonvacuous :
   (exists g, get_group (t_st ts) 2 = Some g /\ g_rtmp g = Some 2) /\
   map n_kind log = [NPubStart; NPubStart; NSubStart].
 Proof. vm_compute. split; [reflexivity|]. split; [eexists; split; reflexivity|]. split; [eexists; split; reflexivity|reflexivity]. Qed.
+
+(* ---- what of an input's CONTENT reaches the group (GroupInputContent.v) --------------------------------------
+   "neither that refusal nor ... changes the accepted input, its delivery to subscribers or the stream's outputs;
+   media from a refused or departed input is never forwarded".  Besides slots, pipeline and media receivers the
+   group holds the SDP of its RTSP input: an RTSP DESCRIBE of the stream is answered with it, RTSP subscribers
+   waiting for it are fed it, the rtsp->rtmp remuxer derives the sequence headers from it. *)
+From Lal Require Import Group.GroupInputContent Group.GroupInputContentProofs.
+
+(* every content-level history is a connection-level history (hence an admission history): all theorems above apply *)
+Theorem c03_content_histories : forall fsdp fsh fx cf h ds,
+  crun fsh fx cf (ds_shell ds) (flat_map erase h) =
+  (ds_shell (fst (drun fsdp fsh fx cf ds h)), snd (drun fsdp fsh fx cf ds h)).
+Proof. exact drun_shell. Qed.
+Print Assumptions c03_content_histories.
+
+(* After ANY history on the repaired tree, the SDP the group of stream s holds is that of the RTSP publisher or RTSP
+   relay pull that IS its accepted input, and none when the input is of another kind or absent: the SDP of an input
+   that was refused (a relay pull overtaken by a publisher, or stopped while connecting) or has departed is never
+   there. *)
+Theorem c03_sdp_is_of_accepted_input : forall fsh fx cf h s,
+  let ds := fst (drun true fsh fx cf init_dstate h) in
+  snd (fst (dstep true fsh fx cf ds (DSdp s))) =
+  DRSdp (match get_group (cs_base (ds_shell ds)) s with Some g => sdp_source s g | None => None end).
+Proof. exact sdp_is_of_accepted_input. Qed.
+Print Assumptions c03_sdp_is_of_accepted_input.
+
+(* one step, any state and any SDP table: an event that leaves the input slots of a group alone leaves its SDP alone;
+   with the foreign-event theorem: an event whose subject is not the accepted input of s - a refused arrival, the
+   end of a refused session, a relay pull that is overtaken - does not change the SDP of s *)
+Theorem c03_unchanged_slots_keep_sdp : forall st st1 ce tbl s gb ga,
+  get_group st s = Some gb -> get_group st1 s = Some ga -> slots ga = slots gb ->
+  lookup_sdp s (sdp_table true st st1 ce tbl) = lookup_sdp s tbl.
+Proof. exact unchanged_slots_keep_sdp. Qed.
+Print Assumptions c03_unchanged_slots_keep_sdp.
+
+Theorem c03_foreign_event_keeps_sdp : forall cf st e x s g tbl,
+  get_group st s = Some g -> has_in g = true ->
+  subject_of e = Some x -> occupies x s g = false ->
+  lookup_sdp s (sdp_table true st (fst (fst (step fixed_tree cf st e))) (CE e) tbl) = lookup_sdp s tbl.
+Proof. exact foreign_event_keeps_sdp. Qed.
+Print Assumptions c03_foreign_event_keeps_sdp.
+
+(* media that the origin sends right behind its answer to play: nothing of it is written to any subscriber unless the
+   group attached the pull *)
+Theorem c03_unattached_pull_forwards_nothing : forall fsdp fsh fx cf ds s i,
+  let '(ds1, r, _) := dstep fsdp fsh fx cf ds (DPullSuccMedia s i) in
+  (forall a, find_att s i (st_atts (cs_base (ds_shell ds1))) = Some a -> a_state a <> AAttached) ->
+  exists r0, r = DRMedia r0 [].
+Proof. exact unattached_pull_forwards_nothing. Qed.
+Print Assumptions c03_unattached_pull_forwards_nothing.
+
+(* F-C03-4, the tree before the repair: an RTSP relay pull is connecting, an RTSP publisher is accepted, the origin
+   answers DESCRIBE - the pull is refused and finished, the publisher is the input, and the group holds the SDP of
+   the refused pull *)
+Theorem c03_sdp_is_of_accepted_input_pinned_refuted :
+  exists cf h g,
+    let ds := fst (drun false true fixed_tree cf init_dstate h) in
+    get_group (cs_base (ds_shell ds)) 1 = Some g /\ g_rtsp g = Some 1 /\ pp_rtsp (g_pp g) = None /\
+    vatt (cs_base (ds_shell ds)) 1 1 = Some AFinished /\
+    lookup_sdp 1 (ds_sdp ds) = Some (OAtt 1 1).
+Proof. exact sdp_of_refused_pull_unrepaired. Qed.
+Print Assumptions c03_sdp_is_of_accepted_input_pinned_refuted.
